@@ -69,17 +69,21 @@ SnapInc ==          \* pinning a dead snapshot would resurrect freed parts
   /\ Ev.snap \notin dead
   /\ UNCHANGED <<cur, epochOf, live, dead, partsOf, zeroed, removableZ, removed, filePids, snapOpen, snapSaw>>
 
-SnapDec ==
+SnapDec ==          \* a decrement that left the counter above 0 may be logged after the one that reached 0
   /\ Is("SnapDec")
-  /\ Ev.snap \notin dead
   /\ Ev.n >= 0
+  /\ (Ev.n = 0) => Ev.snap \notin dead          \* the counter reaches 0 once
   /\ IF Ev.n = 0
        THEN /\ dead' = dead \cup { Ev.snap } /\ live' = live \ { Ev.snap }
             \* the current snapshot of a table dies only when it is being replaced or the table closes;
             \* either way it stops being current
             /\ cur' = { pr \in cur : pr[2] # Ev.snap }
-       ELSE UNCHANGED <<dead, live, cur>>
-  /\ UNCHANGED <<epochOf, partsOf, zeroed, removableZ, removed, filePids, snapOpen, snapSaw>>
+            \* bookkeeping of a dead snapshot is dropped (its file parts are kept while a file snapshot that saw it
+            \* is still in progress)
+            /\ partsOf' = { pr \in partsOf : pr[1] # Ev.snap }
+            /\ filePids' = { pr \in filePids : pr[1] # Ev.snap \/ (\E x \in snapSaw : x[2] = Ev.snap) }
+       ELSE UNCHANGED <<dead, live, cur, partsOf, filePids>>
+  /\ UNCHANGED <<epochOf, zeroed, removableZ, removed, snapOpen, snapSaw>>
 
 PartZero ==         \* the last reference goes only after every snapshot holding the part is dead
   /\ Is("PartZero")
@@ -119,7 +123,8 @@ FileSnapEnd ==
           ELSE copied = {}
   /\ snapOpen' = snapOpen \ { <<Ev.id, Ev.tbl>> }
   /\ snapSaw' = { x \in snapSaw : x[1] # Ev.id }
-  /\ UNCHANGED <<cur, epochOf, live, dead, partsOf, zeroed, removableZ, removed, filePids>>
+  /\ filePids' = { pr \in filePids : pr[1] \in live \/ (\E x \in snapSaw : x[1] # Ev.id /\ x[2] = pr[1]) }
+  /\ UNCHANGED <<cur, epochOf, live, dead, partsOf, zeroed, removableZ, removed>>
 
 TraceNext == Replace \/ SnapInc \/ SnapDec \/ PartZero \/ PartRemove \/ FileSnapBegin \/ FileSnapEnd
 
